@@ -33,6 +33,8 @@ inductive Callee where
   | unpicklable                 -- returns a value that `tx.send` cannot pickle: the child dies inside send
   | afterSendDeath (v : Nat)    -- returns normally, the child is killed after the message is complete
   | midSendDeath (v : Nat)      -- returns a big value, the child is killed while blocked in the write
+  | spawns (v : Nat)            -- starts a process of its own (a nested `@in_subprocess` call, `calculate_in_subprocess`, a plain
+                                -- `Process`), waits for it and returns a picklable value — as it does when it is run directly
 deriving DecidableEq, Repr
 
 /-- what the child process does, as far as the protocol can tell -/
@@ -43,8 +45,8 @@ inductive Beh where
   | dieMidSend    -- starts a big write and dies before the parent drained it (if the parent drains first: like sendOk)
 deriving DecidableEq, Repr
 
-/-- `_inner`, by the flags the translator read off its try statement -/
-def childBeh : Callee → Beh
+/-- `_inner`, by the flags the translator read off its try statement; `daemon`: the child was started as a daemonic process -/
+def childBehD (daemon : Bool) : Callee → Beh
   | .ret _ => if innerElseSendsValue then .sendOk else .die
   | .raiseExc _ => if innerCatchesException then (if innerHandlerSendsError then .sendErr else .die) else .die
   | .raiseBase _ => if innerCatchesBaseException then (if innerHandlerSendsError then .sendErr else .die) else .die
@@ -52,6 +54,14 @@ def childBeh : Callee → Beh
   | .unpicklable => .die
   | .afterSendDeath _ => if innerElseSendsValue then .sendOk else .die
   | .midSendDeath _ => if innerElseSendsValue then .dieMidSend else .die
+  | .spawns _ =>
+      -- a daemonic process is not allowed to have children: `Process.start()` inside the callee raises AssertionError, which
+      -- `_inner` treats like any exception of the callee
+      if daemon then (if innerCatchesException then (if innerHandlerSendsError then .sendErr else .die) else .die)
+      else if innerElseSendsValue then .sendOk else .die
+
+/-- … with the `daemon` flag the translator read off the `Process(..)` call -/
+def childBeh (c : Callee) : Beh := childBehD processDaemon c
 
 /-! ## local state -/
 
@@ -176,6 +186,11 @@ def parentStep (P : List Instr) (s : St) : Option (St × Eff) :=
         if s.cpc == .notStarted then some (raiseAt i .err s, .none)      -- "can only join a started process"
         else if s.cpc == .exited then some ({ s.adv with reaped := true }, .none)
         else none                                                         -- blocks synchronously
+    | .joinTimeout =>
+        if s.cpc == .notStarted then some (raiseAt i .err s, .none)
+        else if s.cpc == .exited then some ({ s.adv with reaped := true }, .none)
+        else some (s.adv, .none)      -- the time is up (how long a child needs from the end of `send` to its exit is not bounded:
+                                      -- exit handlers, non-daemon threads): the coroutine goes on, the child is neither gone nor reaped
     | .closeRx => if s.rxOpen then some ({ s.adv with rxOpen := false }, .freeRx) else some (s.adv, .none)
     | .raiseIfError =>
         match s.res with
